@@ -21,6 +21,14 @@ Theorem C15_eof : forall r, ~ In 10 r ->
   decode_all_eof r = Some (ref_eof_tail r, if ends_cr r then [13] else []).
 Proof. exact decode_all_eof_tail. Qed.
 
+(* End of stream on ANY buffer (complete lines still in it: a Framed built from parts with a pre-filled read buffer
+   whose transport reports EOF at once calls decode_eof first): repeated decode_eof yields the lines of the reference
+   splitter and then the tail, exactly what decode followed by decode_eof yields. *)
+Theorem C15_eof_all : forall src,
+  decode_all_eof src =
+  let '(its, r) := ref_lines src in Some (its ++ ref_eof_tail r, if ends_cr r then [13] else []).
+Proof. exact decode_all_eof_spec. Qed.
+
 (* What the harness observes on any input (decode until None, then decode_eof until None). *)
 Theorem C15_run : forall src,
   run_lines src =
@@ -54,6 +62,7 @@ Proof. repeat constructor; cbn; intuition discriminate. Qed.
 Print Assumptions C15_spec.
 Print Assumptions C15_ref_split.
 Print Assumptions C15_eof.
+Print Assumptions C15_eof_all.
 Print Assumptions C15_run.
 Print Assumptions C15_invalid_ok.
 Print Assumptions C15_invalid_err.
